@@ -58,6 +58,10 @@ func (a c09Run) diff(b c09Run) string {
 	return sameStore(a.Store, b.Store)
 }
 
+func traceEnded(tr []Ev) bool {
+	return len(tr) > 0 && (tr[len(tr)-1].K == "end" || tr[len(tr)-1].K == "panic")
+}
+
 func randomDraws(c c09Case) int {
 	n := 0
 	var walkE func(e *Expr)
@@ -131,6 +135,25 @@ func runC09(c c09Case) Verdict {
 	if d := first.diff(second); d != "" {
 		return failf("two runs of the same script with seed %q and the same choices differ: %s\nscript:\n%s\nchoices %v\nfirst run:\n%ssecond run:\n%s",
 			c.Seed, d, joinFiles(renderCanonical(c.Script)), c.Choices, showTrace(first.Trace), showTrace(second.Trace))
+	}
+	// a third run, interleaved step by step with a runner of another seed that is created while it is under way
+	third, err3 := newHost(renderCanonical(c.Script), c.Seed, c.Vars)
+	if err3 != nil {
+		return failf("third load failed: %v", err3)
+	}
+	nc3, nco := 0, 0
+	driveN(third, 2, c.Choices, &nc3)
+	other, _ := newHost(renderCanonical(c.Script), c.OtherSeed, c.Vars)
+	for len(third.trace) < 40 && !traceEnded(third.trace) {
+		if !traceEnded(other.trace) && len(other.trace) < 40 {
+			driveN(other, 1, c.Choices, &nco)
+		}
+		driveN(third, 1, c.Choices, &nc3)
+	}
+	interleaved := c09Run{Trace: third.trace, Fn: third.fnLog, Cmd: third.cmdLog, Store: third.finalStore()}
+	if d := first.diff(interleaved); d != "" {
+		return failf("a run with seed %q differs when another runner (seed %q) is created and stepped while it is under way: %s\nscript:\n%s\nchoices %v\nalone:\n%sinterleaved:\n%s",
+			c.Seed, c.OtherSeed, d, joinFiles(renderCanonical(c.Script)), c.Choices, showTrace(first.Trace), showTrace(interleaved.Trace))
 	}
 	draws := randomDraws(c)
 	distinctTexts := map[string]bool{}
